@@ -32,11 +32,12 @@ def world(I, status1, status2=(True, True, True)):
     set_ownership(I, PM, 'creator')
     b = bank_of(I)
     res = {}
+    fee_cfg = param_fees(I)
     for pid, denoms, st in (('p1', ['uA', 'uB'], status1), ('p2', ['uB', 'uC'], status2)):
         x = I.sym('x' + pid[1], lo=1, hi=U128 // 4)
         y = I.sym('y' + pid[1], lo=1, hi=U128 // 4)
         S = I.sym('S' + pid[1], lo=MINLIQ + 1, hi=U128 // 4)
-        put_pool(I, pool_info(pid, denoms, [6, 6], [x, y], xyk(), pool_fee(10 ** 15, 2 * 10 ** 15, 0), status=pool_status(*st)))
+        put_pool(I, pool_info(pid, denoms, [6, 6], [x, y], xyk(), fee_cfg, status=pool_status(*st)))
         res[pid] = (x, y, S)
         b.supply[LPD[pid]] = S
         b.set(PM, LPD[pid], MINLIQ)
@@ -106,7 +107,7 @@ def _replay_switch(op):
     from .c02 import _mints
 
     def build(m):
-        fees = (10 ** 15, 2 * 10 ** 15, 0, [])
+        fees = fees_of_model(m)
         st1 = (m['swaps_enabled'], m['deposits_enabled'], m['withdrawals_enabled'])
         steps = [{'op': 'set_pool', 'pool': pool_json('p1', ['uA', 'uB'], [6, 6], [m['x1'], m['y1']], 'constant_product', fees, status=st1)},
                  {'op': 'set_pool', 'pool': pool_json('p2', ['uB', 'uC'], [6, 6], [m['x2'], m['y2']], 'constant_product', fees)}]
